@@ -375,7 +375,7 @@ func c04isolate(w mon.W, log *mon.Log, cs c04case) []string {
 // valueClass names the narrowest feature of a value for a signature.
 func valueClass(v gen.V) string {
 	switch v.Kind {
-	case "str", "err", "errv3", "stringer", "tostring":
+	case "str", "err", "errv3", "stringer", "tostring", "textm":
 		return v.Kind + "-" + strClass(v.Text)
 	case "strs":
 		worst := "plain"
